@@ -14,7 +14,7 @@ import json, os, shutil, subprocess, sys, time
 HERE = os.path.dirname(os.path.abspath(__file__))
 VERIF = os.path.dirname(HERE)
 REPO = "/repo"
-WT = "/tmp/seedchk"
+WT = "/tmp/seedchk-" + os.path.basename(os.environ.get("SEED_ISO", "/tmp/seediso"))
 
 
 def sh(cmd, cwd=None, timeout=3600):
